@@ -61,6 +61,36 @@ type T struct{ N int }
 func (t T) Get() int { return t.N }
 
 func unusedBase() {}
+
+// Conf has a deprecated field: a fact about an object that is not package-level.
+type Conf struct {
+	// Name is the name.
+	Name string
+	// Legacy is the old name.
+	//
+	// Deprecated: use Name.
+	Legacy string
+}
+
+// Store has a deprecated interface method.
+type Store interface {
+	Load() int
+	// Fetch is the old Load.
+	//
+	// Deprecated: use Load.
+	Fetch() int
+}
+
+// KV wants an even number of arguments: a fact about a parameter.
+func KV(name string, kv ...interface{}) int {
+	if len(kv)%2 != 0 {
+		panic("odd number of arguments")
+	}
+	return len(name) + len(kv)
+}
+
+// KVs forwards to KV: a second parameter fact that depends on the first.
+func KVs(kv []interface{}) int { return KV("x", kv...) }
 """,
     "util/util.go": """package util
 
@@ -98,6 +128,11 @@ func Wrap(x int) int { return base.Pure(x) + util.Twice(x) }
 func Use() int {
 	base.Pure(3)
 	return base.Old()
+}
+
+// Old2 reads a deprecated field, calls a deprecated interface method and passes an odd number of arguments.
+func Old2(c base.Conf, s base.Store) int {
+	return len(c.Legacy) + s.Fetch() + base.KV("a", 1, 2, 3) + base.KVs([]interface{}{1})
 }
 
 // Loop has a redundant condition.
@@ -157,7 +192,7 @@ type unusedType struct{}
 }
 PKGS = ["base", "util", "mid", "top", "side"]
 # triggers the fixture must produce (fact-based ones prove that facts crossed package boundaries)
-EXPECT = [("mid/mid.go", "SA1019"), ("mid/mid.go", "SA4017"), ("top/top.go", "SA4017"), ("top/top.go", "SA1019"),
+EXPECT = [("mid/mid.go", "SA1019"), ("mid/mid.go", "SA5012"), ("mid/mid.go", "SA4017"), ("top/top.go", "SA4017"), ("top/top.go", "SA1019"),
           ("side/side.go", "SA4017"), ("base/base.go", "U1000"), ("util/util.go", "SA4000")]
 
 
